@@ -69,8 +69,11 @@ def dictOfPairs : List PyVal → List PyVal → List PyVal × List PyVal → Lis
   | k :: ks, v :: vs, (ak, av) => dictOfPairs ks vs (dictSet k v ak av)
   | _, _, acc => acc
 
+/-- Sign flip on the textual `repr` of a float (`1.5` ↔ `-1.5`, `0.0` ↔ `-0.0`). -/
 def negFloatRepr (r : String) : String :=
-  if r.startsWith "-" then (r.drop 1).toString else "-" ++ r
+  match r.toList with
+  | '-' :: rest => String.ofList rest
+  | cs => String.ofList ('-' :: cs)
 
 def constToPyVal : Const → Except Err PyVal
   | .int n => .ok (.int n)
